@@ -52,6 +52,8 @@ func TestWriteFailureNonce(t *testing.T) {
 		defer env.finish(t)
 		a, b, _, _ := honestPair(t, env, lib.Key(ia), lib.Key(ib), eph[0], eph[1])
 		w, r := [2]*honestEnd{a, b}[dir], [2]*honestEnd{a, b}[1-dir]
+		base, baseKind := drawBase(t, "base", maxFrames)
+		jump(w, r, base)
 		w.c.arm(faults)
 
 		// model: which chunk goes out in which underlying call
@@ -99,8 +101,8 @@ func TestWriteFailureNonce(t *testing.T) {
 				t.Fatalf("write %d of %d bytes returned n=%d, %d bytes went out in complete frames (err=%v)", wi, sz, n, wantN, err)
 			}
 			// (a) the counter has moved past every sealed frame
-			if c := w.res.sc.VerifC16SendCounter(); os.Getenv("VERIF_C16_NOSHIM") == "" && c != uint64(1+len(model)) {
-				t.Fatalf("send counter %d after %d sealed frames (+1 auth frame), %d of them refused by the transport: a later frame would be sealed under a used nonce (writes=%v faults=%v)", c, len(model), hits, writes, faults)
+			if c := w.res.sc.VerifC16SendCounter(); os.Getenv("VERIF_C16_NOSHIM") == "" && c != base+uint64(len(model)) {
+				t.Fatalf("send counter %d after %d sealed frames (counter started at %d), %d of them refused by the transport: a later frame would be sealed under a used nonce (writes=%v faults=%v)", c, len(model), base, hits, writes, faults)
 			}
 		}
 		w.c.fmu.Lock()
@@ -122,14 +124,14 @@ func TestWriteFailureNonce(t *testing.T) {
 			}
 			frame := make([]byte, refFrameSize)
 			copy(frame, model[i].plain)
-			ref := rs.recvAead.Seal(nil, refNonce(uint64(1+i)), frame, nil)
+			ref := rs.recvAead.Seal(nil, refNonce(base+uint64(i)), frame, nil)
 			l := len(model[i].plain)
 			if len(e.bytes) < l {
 				l = len(e.bytes)
 			}
 			known[i] = l
 			if string(e.bytes[:l]) != string(ref[:l]) {
-				t.Fatalf("frame %d (%d bytes on the link, failed=%v) is not the reference sealing of its plaintext under nonce %d (writes=%v faults=%v)", i, len(e.bytes), e.failed, 1+i, writes, faults)
+				t.Fatalf("frame %d (%d bytes on the link, failed=%v) is not the reference sealing of its plaintext under nonce %d (writes=%v faults=%v)", i, len(e.bytes), e.failed, base+uint64(i), writes, faults)
 			}
 		}
 		// (b) black box: no two emissions share a key stream
@@ -171,8 +173,8 @@ func TestWriteFailureNonce(t *testing.T) {
 			}
 		}
 		nontrivial := hits > 0 && afterFault > 0
-		lib.Case("TestWriteFailureNonce", lib.FP(writes, faults, mode, dir), nontrivial,
-			append(kcls, fmt.Sprintf("faults-hit:%d", hits), fmt.Sprintf("frames-after-first-fault:%s", bucket(afterFault)), fmt.Sprintf("xor-pairs:%s", bucket(pairs)))...)
+		lib.Case("TestWriteFailureNonce", lib.FP(writes, faults, mode, dir, base), nontrivial,
+			append(kcls, "counter-start:"+baseKind, "counter-crosses:"+crossed(base, len(model)), fmt.Sprintf("faults-hit:%d", hits), fmt.Sprintf("frames-after-first-fault:%s", bucket(afterFault)), fmt.Sprintf("xor-pairs:%s", bucket(pairs)))...)
 		if nontrivial && lib.WantSample("TestWriteFailureNonce") {
 			lib.Sample("TestWriteFailureNonce", map[string]interface{}{"writes": writes, "faults(frame->bytes accepted)": fmt.Sprint(faults), "sealed frames": len(model), "frames after first fault": afterFault})
 		}
